@@ -45,9 +45,17 @@ ActSeq == <<"move-dot-left", "move-dot-right", "move-dot-left-word", "move-dot-r
             "kill-alnum-word-right", "kill-line-left", "kill-line-right",
             "transpose-rune", "transpose-word", "transpose-small-word", "transpose-alnum-word">>
 ActSeqComplete == {ActSeq[i] : i \in 1..Len(ActSeq)} = Builtins
-Presc(a) == [a |-> a, enum |-> Enumerable(a, b, d),
-             unspec |-> IF a \in TransActs THEN ~Transpose(a, b, d).exact ELSE UnspecifiedMove(MoverOf(a), b, d),
-             outs |-> IF Enumerable(a, b, d)
-                      THEN {[buf |-> Runes(o.buf), dot |-> o.dot] : o \in Outcomes(a, b, d)} ELSE {}]
-EmitB == PrintT(ToJson([buf |-> b, dot |-> d, acts |-> [i \in 1..Len(ActSeq) |-> Presc(ActSeq[i])]]))
+(* compact prescription per builtin: <<enum, unspec, outs>>; an outcome is <<m, dot>> \o runes.
+   For kill-X the outcomes are keyed by m = the dot move-dot-X may produce on the same state: the
+   executor looks up the entry of the REAL move-dot-X result, so that kill-X is compared with the
+   deletion between the dot and what the real mover does (m = -1 for the other builtins). *)
+Flag(x) == IF x THEN 1 ELSE 0
+PrescOuts(a) ==
+  IF a \in KillActs THEN {<<m, Kill(b, d, m).dot>> \o Runes(Kill(b, d, m).buf) : m \in Targets(MoverOf(a), b, d)}
+  ELSE IF Enumerable(a, b, d) THEN {<<-1, o.dot>> \o Runes(o.buf) : o \in Outcomes(a, b, d)}
+  ELSE {}
+Presc(a) == <<Flag(Enumerable(a, b, d)),
+              Flag(IF a \in TransActs THEN ~Transpose(a, b, d).exact ELSE UnspecifiedMove(MoverOf(a), b, d)),
+              PrescOuts(a)>>
+EmitB == PrintT(ToJson([buf |-> Runes(b), dot |-> d, acts |-> [i \in 1..Len(ActSeq) |-> Presc(ActSeq[i])]]))
 =============================================================================
